@@ -541,6 +541,172 @@ def alg_cases(rng, n):
     return cases
 
 
+
+# ------------------------------------------------------------------ the rest of the interval API (exact model predictions)
+def s_valtok(q, rng, kinds=None):
+    """value token of my format (i: / d:a@n / q:n/d) for a rational q"""
+    return s_val(q, rng)
+
+
+def near(I, rng, dyadic=True):
+    """a scalar at / next to the ends of I, inside, or far away (boundary cases of cmp / contains / set_a / set_b)"""
+    pts = [I[0]] if len(I) == 1 else [I[0], I[2], (I[0] + I[2]) / 2]
+    x = rng.choice(pts) + rng.choice([0, 0, 0, F(1, 4), F(-1, 4), 3, -3])
+    if not dyadic and rng.random() < 0.3:
+        x += F(1, 3)
+    return x
+
+
+def related_pair(rng):
+    """two dyadic intervals that are nested / touching / overlapping / equal / disjoint, ends often equal with
+    different strictness"""
+    I1 = rnd_itv(rng, True, False)
+    k = rng.random()
+    if k < 0.25:
+        I2 = rnd_itv(rng, True, False)
+    elif len(I1) == 1:
+        a = I1[0]
+        I2 = rng.choice([(a,), (a, rng.randint(0, 1), a + 1, rng.randint(0, 1)), (a - 1, rng.randint(0, 1), a, rng.randint(0, 1)),
+                         (a - 1, 0, a + 1, 1)])
+    else:
+        a, ao, b, bo = I1
+        w = b - a
+        I2 = rng.choice([
+            (a, rng.randint(0, 1), b, rng.randint(0, 1)),                    # same ends, maybe other strictness
+            (b, rng.randint(0, 1), b + w, rng.randint(0, 1)),                # touching on the right
+            (a - w, rng.randint(0, 1), a, rng.randint(0, 1)),                # touching on the left
+            (a + w / 4, rng.randint(0, 1), b - w / 4, rng.randint(0, 1)),    # nested
+            (a, rng.randint(0, 1), b - w / 2, rng.randint(0, 1)),            # shared lower end
+            (a + w / 2, rng.randint(0, 1), b, rng.randint(0, 1)),            # shared upper end
+            (a - w / 2, rng.randint(0, 1), a + w / 2, rng.randint(0, 1)),    # overlapping
+            (b,), (a,), ((a + b) / 2,),
+        ])
+    return (I1, I2) if rng.random() < 0.5 else (I2, I1)
+
+
+def disjoint(I1, I2):
+    def lo(I): return (I[0], 0) if len(I) == 1 else (I[0], I[1])
+    def hi(I): return (I[0], 0) if len(I) == 1 else (I[2], I[3])
+    for A, B in ((I1, I2), (I2, I1)):
+        (hb, ho), (la, lo_) = hi(A), lo(B)
+        if hb < la or (hb == la and (ho or lo_)):
+            return True
+    return False
+
+
+def api_cases(rng, n):
+    cases = []
+    sd = lambda I: s_itv(I, s_dy)
+    sr = lambda I: s_itv(I, s_rat)
+    sv = lambda I: s_itv(I, lambda q: s_val(q, rng))
+    for _ in range(n):
+        op = rng.choice(["dsplit", "dinter", "dinter", "ddisj", "ddisj", "dequals", "dcmp", "dcmp", "dcollapse", "dseta", "dsetb",
+                         "dscale", "dsize", "dfromz", "rfromz", "dassign", "rassign", "rfromdy", "rfromdi", "rcval", "rcval", "rcalg",
+                         "vcollapse", "vseta", "vsetb", "vinfo", "vswap"])
+        if op == "dsplit":
+            I = rnd_itv(rng, True)
+            if len(I) == 1:
+                continue
+            cases.append("dsplit %s %d %d" % (sd(I), rng.randint(0, 1), rng.randint(0, 1)))
+        elif op in ("dinter", "ddisj", "dequals"):
+            I1, I2 = related_pair(rng)
+            if op == "dinter" and disjoint(I1, I2):
+                continue                      # precondition of construct_intersection (asserted)
+            cases.append("%s %s %s" % (op, sd(I1), sd(I2)))
+        elif op == "dcmp":
+            I = rnd_itv(rng, True)
+            k = rng.choice("idq")
+            x = near(I, rng, k != "q")
+            if k == "i":
+                x = F(math.floor(x)) if rng.random() < 0.5 else F(math.ceil(x))
+                cases.append("dcmp %s i:%d" % (sd(I), x.numerator))
+            elif k == "d":
+                cases.append("dcmp %s d:%s" % (sd(I), s_dy(x)))
+            else:
+                cases.append("dcmp %s q:%s" % (sd(I), s_rat(x)))
+        elif op == "dcollapse":
+            I = rnd_itv(rng, True)
+            cases.append("dcollapse %s %s" % (sd(I), s_dy(near(I, rng))))
+        elif op in ("dseta", "dsetb", "vseta", "vsetb"):
+            fam = op[0]
+            I = rnd_itv(rng, fam == "d", fam == "v")
+            fin = [e for e in (I if len(I) == 1 else (I[0], I[2])) if e not in (MINF, PINF)]
+            if not fin:
+                continue
+            base = rng.choice(fin)
+            x = base + rng.choice([0, 0, F(1, 2), F(-1, 2), 2, -2])
+            o = rng.randint(0, 1)
+            # respect the asserted preconditions: new a <= upper end (closed-closed if equal), new b >= lower end
+            lo_ = I[0]
+            hi_ = I[0] if len(I) == 1 else I[2]
+            if op[1:] == "seta":
+                if hi_ != PINF and (x > hi_ or (x == hi_ and (o or (len(I) > 1 and I[3])))):
+                    continue
+            else:
+                if lo_ != MINF and (x < lo_ or (x == lo_ and (o or (len(I) > 1 and I[1])))):
+                    continue
+            if fam == "d":
+                cases.append("%s %s %s %d" % (op, sd(I), s_dy(x), o))
+            else:
+                cases.append("%s %s %s %d" % (op, sv(I), s_val(x, rng), o))
+        elif op == "dscale":
+            I = rnd_itv(rng, True)
+            if len(I) == 1:
+                continue
+            cases.append("dscale %s %d" % (sd(I), rng.choice([0, 1, -1, 2, -3, 5, -7, 64])))
+        elif op == "dsize":
+            I = rnd_itv(rng, True)
+            if len(I) > 1 and rng.random() < 0.3:
+                I = (I[0], I[1], I[0] + F(rng.choice([1, 3, 5, 255, 256, 257]), 2 ** rng.randint(0, 9)), I[3])
+            cases.append("dsize %s" % sd(I))
+        elif op in ("dfromz", "rfromz"):
+            a = rng.choice([0, 1, -1, 7, -2**63, 2**64 + 1, rng.randint(-10**20, 10**20)])
+            b = a + rng.choice([0, 0, 1, 2, 10**19])
+            o = (0, 0) if a == b else (rng.randint(0, 1), rng.randint(0, 1))
+            cases.append("%s %d %d %d %d" % (op, a, o[0], b, o[1]))
+        elif op == "dassign":
+            cases.append("dassign %s %s" % (sd(rnd_itv(rng, True)), sd(rnd_itv(rng, True))))
+        elif op == "rassign":
+            cases.append("rassign %s %s" % (sr(rnd_itv(rng)), sr(rnd_itv(rng))))
+        elif op == "rfromdy":
+            I = rnd_itv(rng, True)
+            if len(I) == 1:
+                cases.append("rfromdy %s 0 %s 0" % (s_dy(I[0]), s_dy(I[0])))
+            else:
+                cases.append("rfromdy %s %d %s %d" % (s_dy(I[0]), I[1], s_dy(I[2]), I[3]))
+        elif op == "rfromdi":
+            cases.append("rfromdi %s" % sd(rnd_itv(rng, True)))
+        elif op == "rcval":
+            I = rnd_itv(rng)
+            x = near(I, rng, False)
+            if rng.random() < 0.3:
+                x = F(math.floor(x))
+            v = rng.choice([MINF, PINF]) if rng.random() < 0.05 else x
+            cases.append("rcval %s %s" % (sr(I), s_val(v, rng)))
+        elif op == "rcalg":
+            I = rnd_itv(rng)
+            if rng.random() < 0.5:
+                # an interval with an end next to the algebraic number
+                v = rng.choice(ALG_ENDS)
+                ap = F(v.approx()).limit_denominator(64)
+                I = rng.choice([(ap - 1, rng.randint(0, 1), ap + F(1, 64), rng.randint(0, 1)), (ap - F(1, 64), 0, ap + 2, 1),
+                                (ap + F(1, 32), 0, ap + 1, 0), (ap - 2, 1, ap - F(1, 32), 0)])
+            else:
+                v = rng.choice(ALG_ENDS + [surd_q(near(I, rng, False))])
+            cases.append("rcalg %s %s" % (sr(I), v.token(rng)))
+        elif op == "vcollapse":
+            I = rnd_itv(rng, False, True)
+            cases.append("vcollapse %s %s" % (sv(I), s_val(rnd_scalar(rng, False), rng)))
+        elif op == "vinfo":
+            I = rnd_itv(rng, False, True)
+            if rng.random() < 0.1:
+                I = (MINF, 1, PINF, 1)
+            cases.append("vinfo %s" % sv(I))
+        elif op == "vswap":
+            cases.append("vswap %s %s" % (sv(rnd_itv(rng, False, True)), sv(rnd_itv(rng, False, True))))
+    return cases
+
+
 # ------------------------------------------------------------------ generate
 def exhaustive_cases(rng):
     cases = []
@@ -588,6 +754,7 @@ def generate(rng, tier, corpus_only=False):
                 cases.append(un_case(fam + "pow", I1, U, rng, rng.randint(0, 5)))
         n_rand = 8000
     cases += alg_cases(rng, 1500 if tier == "quick" else 12000)
+    cases += api_cases(rng, 4000 if tier == "quick" else 40000)
     if tier == "thorough":
         # every open/closed pattern x n in 0..5 on entirely negative / positive / straddling algebraic intervals
         for shape in ("neg", "pos", "mix"):
